@@ -320,7 +320,8 @@ def resolve(context_names, source, target, strict):
     missing = [s for s, _ in pairs if s not in ctxset]
     present = [(s, t) for s, t in pairs if s in ctxset]
     if missing and strict:
-        hazard = hazard or "strict-names-with-missing-name"
+        # with strict names the missing ones take part in whatever the method does before it fails
+        hazard = hazard or _collisions(pairs, ctxset, in_place=True) or "strict-names-with-missing-name"
     return present, missing, hazard
 
 
@@ -422,19 +423,23 @@ def expect_lay(kind, box, other, names=None, strict=False):
             hazard = hazard or "selected-name-is-not-a-series"
             exp[n] = [ANY]
             continue
+        if a.freq is not None and b.freq is not None and a.freq != b.freq:
+            exp[n] = [a]                # different frequencies: nothing to lay
+            continue
         try:
             laid = func(a, b)
         except Hazard as h:
             if str(h) == "mixed-frequencies":
-                exp[n] = [a]            # different frequencies: nothing to lay
+                exp[n] = [a]
             else:
                 hazard = hazard or str(h)
                 exp[n] = [ANY]
             continue
-        if a.freq is None:
-            # a series without a start period: the databox method leaves it alone, the series method would fill it
+        if a.freq is None or b.freq is None:
+            # a series without a start period on either side: the databox method leaves self alone (frequencies
+            # differ), the series method would lay it (filling an empty self / broadcasting variants): both accepted
             exp[n] = [a, laid]
-        elif b.freq is not None and a.freq != b.freq:
+        elif a.freq != b.freq:
             exp[n] = [a]
         else:
             exp[n] = [laid]
@@ -487,16 +492,18 @@ def expect_copy(box, source, target, strict, shallow=False):
     if source is None and target is None:
         return exact(box), None
     pairs, missing, hazard = resolve(box.keys(), source, target, strict)
-    if hazard is None:
-        hazard = _collisions(pairs, set(box), in_place=False)
-        if shallow and hazard == "target-collides-with-another-source":
-            hazard = None   # built from pairs at once, no sequential renaming involved
+    if hazard is None or hazard in ("strict-names-with-missing-name",):
+        hz = _collisions(pairs, set(box), in_place=False)
+        if shallow and hz == "target-collides-with-another-source":
+            hz = None   # built from pairs at once, no sequential renaming involved
+        hazard = hz or hazard
     return {t: [box[s]] for s, t in pairs}, hazard
 
 
 def expect_rename(box, source, target, strict):
     pairs, missing, hazard = resolve(box.keys(), source, target, strict)
-    hazard = hazard or _collisions(pairs, set(box), in_place=True)
+    hz = _collisions(pairs, set(box), in_place=True)
+    hazard = hz or hazard
     ren = dict(pairs)
     return {ren.get(n, n): [x] for n, x in box.items()}, hazard
 
@@ -596,6 +603,7 @@ def expect_csv(box, names_sel, span, frequency_span, desc_w, desc_r, round_, sta
             continue                        # non-series items are not exported
         if x.freq is None:
             exp[n] = [ABSENT, _csv_series(x, None, desc_w, round_)]
+            hazard = "series-without-start-period-exported"
             continue
         if x.freq not in fspan:
             continue
@@ -637,11 +645,13 @@ def slate_array(box, names, freq, ords, num_variants, fallbacks=None, overwrites
     cell classes: 'input', 'missing', 'fallback', 'overwrite', 'clipped'"""
     if len(set(names)) != len(names):
         raise Hazard("duplicate-names")
+    if not names:
+        raise Hazard("no-names")
     if list(ords) != list(range(ords[0], ords[0] + len(ords))):
         raise Hazard("span-not-consecutive")
-    nonbase = set(range(len(ords))) - set(base_columns) if (clip_to_base) else set()
-    if clip_to_base and not nonbase:
-        nonbase = set()
+    if clip_to_base and not base_columns:
+        raise Hazard("clip-to-base-span-without-base-columns")
+    nonbase = (set(range(len(ords))) - set(base_columns)) if clip_to_base else set()
     values, classes = {}, {}
     for n in names:
         vs, cs = [], []
